@@ -124,6 +124,43 @@ theorem simplify_preserves [BEq σ] [LawfulBEq σ] (segs : List (Segment σ)) :
   | nil => rfl
   | cons s rest => exact simplifyLoop_stream rest s
 
+/-! ## Style-level helpers keep characters, control flags and cell lengths -/
+
+/-- `Segment.apply_style` changes styles only: texts and control flags are untouched, in order. -/
+theorem apply_style_keeps_text (add : σ → σ → σ) (truthy : σ → Bool) (segs : List (Segment σ)) (st ps : Option σ) :
+    (applyStyle add truthy segs st ps).map textCtl = segs.map textCtl ∧
+    lineLength cw (applyStyle add truthy segs st ps) = lineLength cw segs :=
+  ⟨applyStyle_textCtl add truthy segs st ps,
+   lineLength_of_textCtl cw _ _ (applyStyle_textCtl add truthy segs st ps)⟩
+
+/-- …and control segments never acquire a style through it. -/
+theorem apply_style_control_unstyled (add : σ → σ → σ) (truthy : σ → Bool) (segs : List (Segment σ)) (st ps : Option σ)
+    (h : st.isSome ∨ ps.isSome) :
+    ∀ s ∈ applyStyle add truthy segs st ps, s.control = true → s.style = none :=
+  applyStyle_control_unstyled add truthy segs st ps h
+
+/-- `strip_styles`, `strip_links`, `remove_color` keep every text and control flag (so a control segment
+stays one, whatever its style). -/
+theorem strip_and_remove_keep_text (truthy : σ → Bool) (f : σ → σ) (segs : List (Segment σ)) :
+    (stripStyles segs).map textCtl = segs.map textCtl ∧
+    (stripLinks truthy f segs).map textCtl = segs.map textCtl ∧
+    (removeColor truthy f segs).map textCtl = segs.map textCtl :=
+  ⟨stripStyles_textCtl segs, stripLinks_textCtl truthy f segs, removeColor_textCtl truthy f segs⟩
+
+/-- `filter_control` splits the segments by their flag, in order, losing none, and dropping control
+segments does not change the cell length of a line. -/
+theorem filter_control_spec (segs : List (Segment σ)) (b : Bool) :
+    (∀ s ∈ filterControl segs b, s.control = b) ∧ (filterControl segs b).Sublist segs ∧
+    (filterControl segs true).length + (filterControl segs false).length = segs.length ∧
+    lineLength cw (filterControl segs false) = lineLength cw segs :=
+  ⟨filterControl_flag segs b, filterControl_sublist segs b, filterControl_count segs,
+   filterControl_lineLength cw segs⟩
+
+/-- `get_shape` is an enclosing rectangle: as many rows as lines, at least as wide as every line. -/
+theorem get_shape_encloses (lines : List (List (Segment σ))) :
+    (getShape cw lines).2 = lines.length ∧ ∀ l ∈ lines, lineLength cw l ≤ (getShape cw lines).1 :=
+  getShape_spec cw lines
+
 /-! ## Witnesses: the two defects found in the code as it stood (kept as machine-checked negations
 for the *old* behaviour, selected by the `rebind` / `mergeCtl` flags of the model). -/
 
